@@ -25,6 +25,17 @@ for pid in props:
         continue
     reason = na.get(pid, "not yet built: no registered check decides this property at this commit (see DESIGN.md section 5 for the plan)")
     na_out.append({"property_id": pid, "reason": reason})
+# known findings: merge known.d/*.json fragments into the single committed file
+known, fixed = [], []
+for p in sorted(glob.glob(os.path.join(V, "known.d", "*.json"))):
+    k = json.load(open(p))
+    known += k.get("known", [])
+    for f in k.get("fixed", []):
+        f["line"] = "fixed: property=%s %s %s" % (f["property"], f["commit"], f["what"])
+        fixed.append(f)
+json.dump({"_comment": "generated from known.d/*.json by harness/mkmanifest.py; 'known' entries suppress the matching "
+           "violation keys (fnmatch) and are printed as KNOWN-FINDING; 'fixed' entries suppress nothing",
+           "known": known, "fixed": fixed}, open(os.path.join(V, "known_findings.json"), "w"), indent=1)
 base["checks"] = checks
 base["not_applicable"] = na_out
 engines = {}
